@@ -1,6 +1,9 @@
-"""C13 scenario runner: one LE pairing between two real Devices (lib.rig.Net) with scripted
-PairingDelegates, recorded at public boundaries, then a reconnection in the same and in swapped
-roles.  Returns the event trace that specs/Smp/SmpTrace.tla validates.
+"""C13 scenario runner: a history of LE pairings between two real Devices (lib.rig.Net) with scripted
+PairingDelegates, recorded at public boundaries.  Per life: one pairing attempt, then reconnections in
+the same and in swapped roles that encrypt from the key stores, optionally the bond deleted on a device;
+the next life pairs AGAIN (same or swapped roles, another configuration) while the devices still hold
+whatever the earlier lives left in their key stores.  Returns the event trace that
+specs/Smp/SmpTrace.tla validates.
 
 Observation points
 * SMP PDUs sent: host->controller HCI tap, ACL fragments reassembled here (Core Vol 3 Part A 7.2),
@@ -27,10 +30,11 @@ KD_BITS = {"ENC": 1, "ID": 2, "SIGN": 4, "LINK": 8}
 SMP_CODES = {1: "req", 2: "rsp", 3: "cfm", 4: "rnd", 5: "fail", 6: "encinfo", 7: "mid", 8: "idinfo", 9: "idaddr",
              10: "sign", 11: "secreq", 12: "pub", 13: "dhk", 14: "keypress"}
 SIDES = ("i", "r")
+Other13 = {"i": "r", "r": "i"}
 
 EV_DEFAULTS = {"e": "", "s": "", "t": "", "k": 0, "k2": 0, "b": False, "v": 0, "ik": [], "rk": [],
                "hang": False, "has_i": False, "has_r": False, "sauth_i": False, "sauth_r": False,
-               "enc_i": False, "enc_r": False, "undisplayed": False}
+               "enc_i": False, "enc_r": False, "undisplayed": False, "sid_i": 0, "sid_r": 0, "swap": False}
 
 
 def kd_mask(names):
@@ -241,8 +245,45 @@ def _has_auth(keys):
     return any(flags)
 
 
+def life_list(sc):
+    """A scenario is a history: the first life is the scenario dict itself, further lives are in sc["lives"].
+    A life = {central (device index, default 0), ci, cr, ai, ar, tamper, badround, passkey,
+              after: steps once the pairing is over, default ["i", "r"]:
+                     "i" / "r" = reconnect with this life's initiator / responder as the central and encrypt()
+                     from the key stores; "Fi" / "Fr" = the user deletes the bond on that device,
+              keep: pair on the connection the previous life's last reconnection left open (and encrypted
+                    under the earlier bond) instead of a new one}"""
+    return [sc] + list(sc.get("lives", []))
+
+
+def _store_digest(entries):
+    import hashlib
+    import json
+
+    if not entries:
+        return b""
+    blob = json.dumps(sorted((str(a), k.to_dict()) for a, k in entries), sort_keys=True, default=str)
+    return hashlib.sha256(blob.encode()).digest()
+
+
 async def scenario(sc, delegate_wrap=None, device_patch=None, trace_hook=None):
-    """Run one configuration.  Returns (events, info)."""
+    """Run one history of pairings.  Returns (events, info).  sc["keystore"] = path prefix: the two devices
+    keep their bonds in JSON key-store files <prefix>-<device>.json (removed afterwards) instead of in memory."""
+    import os
+
+    files = [f"{sc['keystore']}-{idx}.json" for idx in (0, 1)] if sc.get("keystore") else []
+    try:
+        return await _scenario(sc, files, delegate_wrap, device_patch, trace_hook)
+    finally:
+        for f in files:
+            for g in (f, f + ".tmp"):
+                if os.path.exists(g):
+                    os.remove(g)
+
+
+async def _scenario(sc, files, delegate_wrap, device_patch, trace_hook):
+    import os
+
     from bumble.pairing import PairingConfig
     from bumble.smp import OobContext, OobLegacyContext
 
@@ -250,43 +291,28 @@ async def scenario(sc, delegate_wrap=None, device_patch=None, trace_hook=None):
     rec = Recorder()
     net = Net13(2, seed=sc["seed"], max_delay=sc.get("delay", 0.0))
     await net.power_on()
+    for idx, f in enumerate(files):
+        from bumble.keys import JsonKeyStore
+
+        os.makedirs(os.path.dirname(f), exist_ok=True)
+        if os.path.exists(f):
+            os.remove(f)
+        net[idx].keystore = JsonKeyStore(None, f)
     if device_patch:
         device_patch(net)
-    cfgs = {"i": sc["ci"], "r": sc["cr"]}
-    scripts = {"i": sc["ai"], "r": sc["ar"]}
-    passkey = sc["passkey"]
-    wrong = passkey ^ (1 << (sc["badround"] - 1))
-    assert 0 <= wrong <= 999999 and wrong != passkey
-    state = {"generated": {}, "shown": {}, "compared": {}}
-    rec.events.append({"e": "cfg", "ci": sc["ci"], "cr": sc["cr"], "ai": sc["ai"], "ar": sc["ar"],
-                       "tamper": bool(sc["tamper"]), "badround": sc["badround"]})
+    lives = life_list(sc)
 
-    # --- pairing configuration (identity = the static random address the connection uses, so that the
-    # key store entry made under the identity address is the one looked up on the next connection)
-    oobctx = {s: OobContext() for s in SIDES}
-    legacy_tk = OobLegacyContext()
-    delegates = {}
-    for idx, s in enumerate(SIDES):
-        cfg = cfgs[s]
-        delegates[s] = make_delegate(s, cfg, scripts[s], passkey, wrong, rec, state, delegate_wrap)
-        oob = None
-        if cfgs["i"]["oob"] or cfgs["r"]["oob"]:
-            peer = SIDES[1 - idx]
-            oob = PairingConfig.OobConfig(
-                oobctx[s], oobctx[peer].share() if cfg["oob"] else None, legacy_tk if cfg["oob"] else None)
-        pc = PairingConfig(sc=cfg["sc"], mitm=cfg["mitm"], bonding=cfg["bond"], delegate=delegates[s],
-                           identity_address_type=PairingConfig.AddressType.RANDOM, oob=oob)
-        net[idx].pairing_config_factory = lambda connection, pc=pc: pc
-
-    # --- taps
+    # --- taps (installed once; which device is "i" / "r" changes from life to life)
+    side_of = {0: "i", 1: "r"}
     shim = LinkShim(rec, rng)
     shim.attach(net.stacks)
-    phase = {"name": "pairing", "central": 0}
+    phase = {"name": "idle"}
     rebond_log = []
+    cur = {"tamper": False, "central": 0, "tampered": False}
 
     def on_exchange(kind, idx, key):
         if phase["name"] == "pairing":
-            rec.ev("encreq" if kind == "req" else "ltkreply", s=SIDES[idx], k=rec.kid(key))
+            rec.ev("encreq" if kind == "req" else "ltkreply", s=side_of[idx], k=rec.kid(key))
         else:
             rebond_log.append((kind, idx, rec.kid(key)))
 
@@ -301,91 +327,143 @@ async def scenario(sc, delegate_wrap=None, device_patch=None, trace_hook=None):
             kw = {"ik": kd_names(pdu[5]), "rk": kd_names(pdu[6])}
         if t == "encinfo":
             kw = {"k": rec.kid(pdu[1:17])}
-        rec.ev("tx", s=SIDES[idx], t=t, **kw)
+        rec.ev("tx", s=side_of[idx], t=t, **kw)
 
-    tampered = {"done": False}
     for idx, st in enumerate(net.stacks):
         reasm = AclReassembler(lambda cid, pdu, idx=idx: smp_tx(idx, cid, pdu))
         st.tap.record = lambda d, p, reasm=reasm: d == "h2c" and reasm.feed(p)
 
         def rx(handle, cid, pdu, idx=idx):
             if cid == 6 and pdu and phase["name"] == "pairing":
-                rec.ev("rx", s=SIDES[idx], t=SMP_CODES.get(pdu[0], f"code{pdu[0]}"))
+                rec.ev("rx", s=side_of[idx], t=SMP_CODES.get(pdu[0], f"code{pdu[0]}"))
 
         st.rx_cb = rx
 
-    if sc["tamper"]:
         # the pairing request is altered in flight: the keypress bit of AuthReq (ignored by both
         # ends, but covered by c1 and f6) is flipped, so the two ends hold different requests
-        tap0 = net.stacks[0].tap
-        inner = tap0.filter_h2c
-
-        def tamper_filter(p):
-            if (not tampered["done"] and p[0] == 0x02 and len(p) >= 16 and p[7:9] == b"\x06\x00" and p[9] == 0x01):
-                tampered["done"] = True
+        def tamper_filter(p, idx=idx, st=st, inner=st.tap.filter_h2c):
+            if (cur["tamper"] and idx == cur["central"] and not cur["tampered"] and p[0] == 0x02 and len(p) >= 16
+                    and p[7:9] == b"\x06\x00" and p[9] == 0x01):
+                cur["tampered"] = True
                 q = bytearray(p)
                 q[12] ^= 0x10
-                tap0.line_h2c.push(bytes(q))
+                st.tap.line_h2c.push(bytes(q))
                 return True
             return inner(p)
 
-        tap0.filter_h2c = tamper_filter
+        st.tap.filter_h2c = tamper_filter
 
-    cc, pc_ = await net.connect_le(0, 1)
-    conns = {"i": cc, "r": pc_}
-    for s in SIDES:
-        c = conns[s]
-        c.on("pairing", lambda keys, s=s: rec.ev("report", s=s, t="keys", b=_has_auth(keys),
-                                                 k=rec.kid(keys.ltk.value) if keys.ltk is not None else 0))
-        c.on("pairing_failure", lambda reason, s=s: rec.ev("report", s=s, t="fail"))
-        c.on("connection_encryption_change", lambda s=s, c=c: c.is_encrypted and rec.ev("enc", s=s))
+    async def stores():
+        return {side_of[idx]: await net[idx].keystore.get_all() for idx in (0, 1)}
 
-    # --- pair
-    task = asyncio.ensure_future(net[0].pair(cc))
-    done, _ = await asyncio.wait({task}, timeout=120.0)
-    hang = not done
-    pair_ok = False
-    if hang:
-        task.cancel()
-        try:
-            await task
-        except BaseException:
-            pass
-    else:
-        exc = task.exception()
-        pair_ok = exc is None
-        rec.ev("report", s="i", t="ok" if pair_ok else "fail")
-        if exc is not None:
-            rec.notes.append(f"pair() raised {type(exc).__name__}: {exc}")
-    await asyncio.sleep(5.0)  # let the responder finish
+    info = {"lives": []}
+    open_conn = None  # (central device index, central's connection, peripheral's connection) left open by a reconnection
+    for n, lf in enumerate(lives):
+        central = lf.get("central", 0)
+        prev_central = cur["central"]
+        side_of = {central: "i", 1 - central: "r"}
+        cfgs = {"i": lf["ci"], "r": lf["cr"]}
+        scripts = {"i": lf["ai"], "r": lf["ar"]}
+        passkey = lf["passkey"]
+        wrong = passkey ^ (1 << (lf["badround"] - 1))
+        assert 0 <= wrong <= 999999 and wrong != passkey
+        state = {"generated": {}, "shown": {}, "compared": {}}
+        head = {"ci": lf["ci"], "cr": lf["cr"], "ai": lf["ai"], "ar": lf["ar"], "tamper": bool(lf["tamper"]), "badround": lf["badround"]}
+        if n == 0:
+            assert central == 0, "the first life's central is device 0"
+            rec.events.append(dict(head, e="cfg"))
+        else:
+            rec.ev("life", swap=central != prev_central, **head)
+        cur.update(tamper=bool(lf["tamper"]), central=central, tampered=False)
 
-    stores = {}
-    for idx, s in enumerate(SIDES):
-        entries = await net[idx].keystore.get_all()
-        stores[s] = entries
-    undisplayed = any(state["shown"].get(s) != v for s, v in state["generated"].items())
-    rec.ev("quiesce", hang=hang,
-           has_i=len(stores["i"]) > 0, has_r=len(stores["r"]) > 0,
-           sauth_i=any(_has_auth(k) for _, k in stores["i"]), sauth_r=any(_has_auth(k) for _, k in stores["r"]),
-           enc_i=bool(cc.is_encrypted), enc_r=bool(pc_.is_encrypted), undisplayed=undisplayed)
-    if trace_hook:
-        trace_hook(rec.events)
-    info = {"pair_ok": pair_ok, "hang": hang, "notes": rec.notes, "state": {k: dict(v) for k, v in state.items()},
-            "stores": {s: [(a, str(k)) for a, k in stores[s]] for s in SIDES}}
+        # --- pairing configuration (identity = the static random address the connection uses, so that the
+        # key store entry made under the identity address is the one looked up on the next connection)
+        oobctx = {s: OobContext() for s in SIDES}
+        legacy_tk = OobLegacyContext()
+        for idx in (0, 1):
+            s = side_of[idx]
+            cfg = cfgs[s]
+            delegate = make_delegate(s, cfg, scripts[s], passkey, wrong, rec, state, delegate_wrap)
+            oob = None
+            if cfgs["i"]["oob"] or cfgs["r"]["oob"]:
+                peer = Other13[s]
+                oob = PairingConfig.OobConfig(
+                    oobctx[s], oobctx[peer].share() if cfg["oob"] else None, legacy_tk if cfg["oob"] else None)
+            pc = PairingConfig(sc=cfg["sc"], mitm=cfg["mitm"], bonding=cfg["bond"], delegate=delegate,
+                               identity_address_type=PairingConfig.AddressType.RANDOM, oob=oob)
+            net[idx].pairing_config_factory = lambda connection, pc=pc: pc
 
-    # --- later connections: same roles, then swapped
-    r_ok = any(e["e"] == "report" and e["s"] == "r" and e["t"] == "keys" for e in rec.events)
-    if pair_ok and r_ok:
+        if lf.get("keep") and open_conn is not None and open_conn[0] == central:
+            cc, pc_ = open_conn[1], open_conn[2]
+        else:
+            if open_conn is not None:
+                await open_conn[1].disconnect()
+                await asyncio.sleep(1.0)
+            cc, pc_ = await net.connect_le(central, 1 - central)
+        open_conn = None
+        for s, c in (("i", cc), ("r", pc_)):
+            c.on("pairing", lambda keys, s=s: phase["name"] == "pairing" and rec.ev(
+                "report", s=s, t="keys", b=_has_auth(keys), k=rec.kid(keys.ltk.value) if keys.ltk is not None else 0))
+            c.on("pairing_failure", lambda reason, s=s: phase["name"] == "pairing" and rec.ev("report", s=s, t="fail"))
+            c.on("connection_encryption_change", lambda s=s, c=c: phase["name"] == "pairing" and c.is_encrypted and rec.ev("enc", s=s))
+
+        # --- pair
+        phase["name"] = "pairing"
+        first = len(rec.events)
+        task = asyncio.ensure_future(net[central].pair(cc))
+        done, _ = await asyncio.wait({task}, timeout=120.0)
+        hang = not done
+        pair_ok = False
+        if hang:
+            task.cancel()
+            try:
+                await task
+            except BaseException:
+                pass
+        else:
+            exc = task.exception()
+            pair_ok = exc is None
+            rec.ev("report", s="i", t="ok" if pair_ok else "fail")
+            if exc is not None:
+                rec.notes.append(f"life {n + 1}: pair() raised {type(exc).__name__}: {exc}")
+        await asyncio.sleep(5.0)  # let the responder finish
+
+        st = await stores()
+        undisplayed = any(state["shown"].get(s) != v for s, v in state["generated"].items())
+        rec.ev("quiesce", hang=hang,
+               has_i=len(st["i"]) > 0, has_r=len(st["r"]) > 0,
+               sid_i=rec.kid(_store_digest(st["i"])), sid_r=rec.kid(_store_digest(st["r"])),
+               sauth_i=any(_has_auth(k) for _, k in st["i"]), sauth_r=any(_has_auth(k) for _, k in st["r"]),
+               enc_i=bool(cc.is_encrypted), enc_r=bool(pc_.is_encrypted), undisplayed=undisplayed)
         phase["name"] = "rebond"
+        if trace_hook and n == 0:
+            trace_hook(rec.events)
+        linfo = {"pair_ok": pair_ok, "hang": hang, "central": central, "state": {k: dict(v) for k, v in state.items()},
+                 "stores": {s: [(a, str(k)) for a, k in st[s]] for s in SIDES}}
+        info["lives"].append(linfo)
+
         try:
             await cc.disconnect()
         except Exception as e:  # noqa: BLE001
             rec.notes.append(f"disconnect raised {e!r}")
         await asyncio.sleep(1.0)
-        for central in (0, 1):
+
+        # --- afterwards: reconnections that encrypt from the stores, bonds deleted by the user
+        r_ok = any(e["e"] == "report" and e["s"] == "r" and e["t"] == "keys" for e in rec.events[first:])
+        steps = list(lf.get("after", ["i", "r"]))
+        nxt = lives[n + 1] if n + 1 < len(lives) else None
+        for j, step in enumerate(steps):
+            dev = central if step[-1] == "i" else 1 - central
+            if step[0] == "F":
+                for name, _ in await net[dev].keystore.get_all():
+                    await net[dev].keystore.delete(name)
+                rec.ev("forget", s=step[-1])
+                continue
+            if not (pair_ok and r_ok):
+                continue
             del rebond_log[:]
-            c2, p2 = await net.connect_le(central, 1 - central)
-            t = asyncio.ensure_future(net[central].encrypt(c2))
+            c2, p2 = await net.connect_le(dev, 1 - dev)
+            t = asyncio.ensure_future(net[dev].encrypt(c2))
             d2, _ = await asyncio.wait({t}, timeout=30.0)
             err = None
             if not d2:
@@ -397,10 +475,19 @@ async def scenario(sc, delegate_wrap=None, device_patch=None, trace_hook=None):
             req = [k for (kind, idx, k) in rebond_log if kind == "req"]
             repl = [k for (kind, idx, k) in rebond_log if kind == "rep"]
             # no encryption request at all (no key found): nothing to compare
-            rec.ev("rebond", s=SIDES[central], k=req[0] if req else 0, k2=repl[0] if repl else 0)
-            info.setdefault("rebond", []).append({"central": SIDES[central], "sent": req, "replied": repl, "encrypt_error": err})
-            await c2.disconnect()
-            await asyncio.sleep(1.0)
+            rec.ev("rebond", s=step, k=req[0] if req else 0, k2=repl[0] if repl else 0)
+            linfo.setdefault("rebond", []).append({"central": step, "sent": req, "replied": repl, "encrypt_error": err})
+            if (nxt is not None and nxt.get("keep") and j == len(steps) - 1 and nxt.get("central", 0) == dev
+                    and err is None and req):
+                open_conn = (dev, c2, p2)  # the next life pairs on this (encrypted) link
+            else:
+                await c2.disconnect()
+                await asyncio.sleep(1.0)
+    first_life = info["lives"][0]
+    info.update(pair_ok=first_life["pair_ok"], hang=first_life["hang"], notes=rec.notes, state=first_life["state"],
+                stores=first_life["stores"], all_ok=all(x["pair_ok"] for x in info["lives"]))
+    if "rebond" in first_life:
+        info["rebond"] = first_life["rebond"]
     return rec.events, info
 
 
